@@ -11,7 +11,6 @@ import (
 	"os"
 	"path/filepath"
 	"regexp"
-	"sort"
 	"strings"
 	"sync"
 	"time"
@@ -43,7 +42,6 @@ type setRun struct {
 	ref    *refEngine
 	og     *og
 	ingest string
-	quiet  bool
 }
 
 func main() {
@@ -81,7 +79,14 @@ func main() {
 	}
 	if len(unsupported) > 0 {
 		c.Extra("unsupported", unsupported)
+	} else {
+		c.Extra("unsupported", "none: no generated construct was answered with an explicit 'not supported' error during calibration; such an answer would be reported with kind error:unsupported")
 	}
+	c.Extra("generator", map[string]any{
+		"range_functions": rangeFns, "aggregations": aggOps, "arithmetic": arithOps, "comparison": cmpOps,
+		"sample_sets": nsets, "expressions_per_set": nexpr,
+		"per_expression": "1 instant query + 1 range query against the reference engine, and the range query against openGemini's own instant queries at its steps",
+	})
 	var wg sync.WaitGroup
 	for w := 0; w < workers; w++ {
 		wg.Add(1)
@@ -113,7 +118,7 @@ func main() {
 		}
 	}
 	for _, op := range arithOps {
-		if !reached("arith:" + op + ":vector-scalar", "arith:"+op+":scalar-vector") {
+		if !reached("arith:"+op+":vector-scalar", "arith:"+op+":scalar-vector") {
 			c.Inconclusive("category-not-reached:arith:"+op+":with-scalar", 1)
 		}
 	}
@@ -787,13 +792,4 @@ func replay(c *vf.Ctx, bin string) {
 		return
 	}
 	run.report(w.Node, w.Node, w.Mode, w.Params, d, want, got)
-}
-
-func sortedKeys(m map[string]struct{}) []string {
-	out := make([]string, 0, len(m))
-	for k := range m {
-		out = append(out, k)
-	}
-	sort.Strings(out)
-	return out
 }
